@@ -32,14 +32,14 @@ PHYS = [
                 'white'],                    # white: every DFT bin populated (Nyquist bin of an even N included)
                ['dcr']),                     # dcr: large DC level with a 1e-3 ripple
     ('N',      [64, 128, 256, 65,            # 65: odd length (fftshift and ifftshift differ)
-                1, 3],                       # a single sample ((2,1) with two polarisations), the shortest odd length > 1
-               [2, 17, 97, 127]),            # 2: a 1-D field that looks like a (2,) column; 17 = one slot + 1; 97, 127: primes (non-smooth FFT)
+                1, 2],                       # a single sample ((2,1) with two polarisations); 2: a 1-D record that looks like a (2,) column
+               [3, 17, 97, 127]),            # 3: shortest odd length > 1; 17 = one slot + 1; 97, 127: primes (non-smooth FFT)
     ('P',      [0.1, 1e-3, 0.5, 1e-9,        # peak power per polarisation row [W]; 1e-9 W (-60 dBm): the first step of a
                                              # naive phi_max/(gamma*P) rule is 1e7 km, exp(-alpha*h/2) underflows
                 0.0,                         # the zero field
                 'edge-', 'edge+'],           # gamma*P_total*L = phi_max*(1 -/+ 1e-9): the single-step / two-step boundary
                ['edge=', 1e-300]),           # exactly on the boundary; |x| = 1e-150: |x|^2 is close to the underflow threshold
-    ('L',      [20.0, 1.0, 100.0, 0.0], []),      # km; 0: the zero-length fibre (identity)
+    ('L',      [20.0, 1.0, 100.0, 0.0, 12.5], []),    # km; 0: the zero-length fibre (identity); 12.5: not a whole number of km
     ('alpha',  [0.0, 0.2, 0.5], []),              # dB/km
     ('b2',     [-20.0, 0.0, 25.0, -5.0], [-25.0]),    # ps^2/km (both limits of the quantifier in the thorough tier)
     ('b3',     [0.0, 0.2, -0.2], []),             # ps^3/km
@@ -255,17 +255,16 @@ def noise_rows(nkind, rows, N):
     for i, r in enumerate(rows):
         nz = rs.standard_normal(N) + 1j * rs.standard_normal(N)
         if nkind == 'zero' or not np.any(r) or (nkind == 'x-only' and i == 1):
-            out.append(np.zeros(N, complex))
-        elif nkind == 'f32':
-            out.append((amp * nz.real).astype(np.float32))
+            nz = np.zeros(N, complex)
         elif nkind == 'i8':
-            out.append((nz.real > 0.5).astype(np.int8))
+            nz = (nz.real > 0.5).astype(complex)
         else:
-            out.append(amp * nz)
+            nz = amp * nz
+        out.append(nz)
     if nkind == 'f32':
-        return np.array(out, dtype=np.float32)
+        return np.array([o.real for o in out], dtype=np.float32)      # a real noise record of lower precision than the signal
     if nkind == 'i8':
-        return np.array(out, dtype=np.int8)
+        return np.array([o.real for o in out], dtype=np.int8)         # an integer noise record (0/1)
     return np.array(out)
 
 
@@ -299,7 +298,9 @@ def sha(a):
 
 # ----------------------------------------------------------------------------- the case
 def case_fn(case):
-    c = dict(zip(NAMES + ['seed'], case))
+    c = dict(zip(NAMES + ['seed', 'full_ladder'], case))
+    nphys = sum(c[n] != v[0] for n, v, _ in PHYS)
+    nform = sum(c[n] != v[0] for n, v, _ in FORM)
     kind, N, Psym, layout, dtype, callf, nkind, grid = [c[n] for n in ('kind', 'N', 'P', 'layout', 'dtype', 'call', 'noise', 'grid')]
     gv = gv_reset()
     with warnings.catch_warnings():
@@ -341,9 +342,11 @@ def case_fn(case):
     lin_phase = float(np.max(np.abs(b2 * w ** 2 / 2) + np.abs(b3 * w ** 3 / 6))) * L + a1 * L / 2
 
     def lin_rms_of(row):
-        """rms over the spectrum of the row of the dispersive phase (b2 w^2/2 + b3 w^3/6) L [rad]: how much the
-        dispersion reshapes the intensity of THIS field along the fibre"""
+        """rms of the dispersive phase (b2 w^2/2 + b3 w^3/6) L [rad] over the spectrum of the time-varying part of the row
+        (the DC bin propagates trivially and is left out of the weights): how much the dispersion reshapes the intensity
+        of THIS field along the fibre"""
         X = np.abs(np.fft.fft(row)) ** 2
+        X[0] = 0.0
         return float(np.sqrt(np.sum(X * ((b2 * w ** 2 / 2 + b3 * w ** 3 / 6) * L) ** 2) / np.sum(X))) if np.any(X) else 0.0
     lin_rms = max(lin_rms_of(r) for r in rowsA)
     rnd = 8 * EPS_IN.get(s_main.dtype, 0.0) * (1 + phi_nl) + 8 * eps_par * (1 + phi_nl + lin_phase)
@@ -427,7 +430,9 @@ def case_fn(case):
     call(c['phi'], layout)
     if partner:
         call(c['phi'], partner)
-    ladder = disp and g != 0 and c['phi'] == PHI0
+    # the ladder: where phi_max is at its baseline; in the quick tier not for points that deviate in physics AND form
+    # coordinates (the two finest rungs are 95 % of the cost of a case; those points keep their single rung)
+    ladder = disp and g != 0 and c['phi'] == PHI0 and (c['full_ladder'] or nform == 0 or nphys == 0)
     if ladder:
         for phv in LADDER:
             if phv != c['phi']:
@@ -596,7 +601,8 @@ def run(ctx):
              f'every point that differs from the baseline {dict(zip(NAMES, pts[0]))} in p physics and f form coordinates with '
              f'p <= {TIERS[tier]}[f], subject to gamma*P*L <= 10 rad (integer/bool dtypes: 0/1 samples, 1 W), enumerated '
              f'completely, fewest deviations first; per case: FIBER at the case phi_max (oracles 1,2,3 / single-rung 4), the partner '
-             f'layout for 1pol/2pol-y0 (oracle 5), and where phi_max is at baseline the ladder {LADDER} against the reference on the '
+             f'layout for 1pol/2pol-y0 (oracle 5), and where phi_max is at baseline'
+             f'{" and not both p > 0 and f > 0" if ctx.quick else ""} the ladder {LADDER} against the reference on the '
              f'grid gv.fs (oracle 4: bound K={K_BOUND:g}, monotone x1.05 once the error is <= {MONO_MAX}); every comparison uses '
              f'copies of the operands taken before the call')
     ctx.assume('numpy.fft is correct; the reference NLSE solver (Strang splitting + Richardson, self-converged to 1e-7) is '
@@ -611,7 +617,7 @@ def run(ctx):
         ('rand', 128, 0.1, 100.0, 0.0, -5.0, -0.2, 1.0, R.FS), ('white', 64, 0.1, 20.0, 0.2, -20.0, 0.2, 1.3, R.FS),
         ('white', 97, 0.1, 20.0, 0.0, 25.0, -0.2, 5.0, 28e9), ('gauss', 65, 0.1, 20.0, 0.5, -20.0, 0.2, 1.3, 640e9)]]
     ctx.pmap('ref-selfcheck', ref_selfcheck, sc, horizon=WALL_HORIZON, recheck=0)
-    cases = [p + (ctx.seed,) for p in adm]
+    cases = [p + (ctx.seed, not ctx.quick) for p in adm]
     # expensive cases are spread evenly by the kernel's chunking; chunk=1 keeps the tail short
     pay = ctx.pmap('lattice', case_fn, cases, horizon=WALL_HORIZON, chunk=1 if len(cases) < 600 else 4, recheck=4)
     st = [p['steps'] for p in pay if p]
